@@ -74,7 +74,13 @@ def func_digest(f):
     return _h('func', getattr(f, '__module__', ''), getattr(f, '__qualname__', repr(type(f))), *cells)
 
 
-def locations(root, skip_hidden=False):
+def _compact(path):
+    """compact paths for value_hash: a long path is replaced by a short digest of itself (and child
+    paths are built from that), so deeply nested documents do not cost quadratic string work"""
+    return path if len(path) <= 40 else '~' + hashlib.sha1(path.encode('utf-8', 'backslashreplace')).hexdigest()[:20]
+
+
+def locations(root, skip_hidden=False, compact=False):
     out = {}
     seen = {}
     deferred = []
@@ -83,6 +89,8 @@ def locations(root, skip_hidden=False):
         out[path] = (kind, digest)
 
     def visit(x, path):
+        if compact:
+            path = _compact(path)
         if isinstance(x, ATOMIC):
             emit(path, 'field', _h(type(x).__name__, repr(x)))
             return
@@ -97,6 +105,12 @@ def locations(root, skip_hidden=False):
             return
         if isinstance(x, (type, types.ModuleType)):
             emit(path, 'field', _h('class', getattr(x, '__module__', ''), getattr(x, '__qualname__', getattr(x, '__name__', ''))))
+            return
+        if isinstance(x, types.GeneratorType):
+            # a generator kept somewhere (an id counter): where it stands and its atomic locals
+            fr = x.gi_frame
+            loc = sorted((k, repr(v)) for k, v in fr.f_locals.items() if isinstance(v, ATOMIC)) if fr is not None else 'done'
+            emit(path, 'field', _h('generator', x.__qualname__, fr.f_lasti if fr is not None else -1, loc))
             return
         if not isinstance(x, (tuple, frozenset)):
             # tuples are values: which tuple object holds them is not observable state
@@ -233,7 +247,7 @@ def observable_diff(a, b):
 
 def value_hash(root, skip_hidden=True):
     """one digest of everything observable from root (process independent)"""
-    locs = locations(root, skip_hidden=skip_hidden)
+    locs = locations(root, skip_hidden=skip_hidden, compact=True)
     return _h(*['%s=%s' % (p, locs[p][1]) for p in sorted(locs)])
 
 
